@@ -27,7 +27,7 @@ func init() { core.Register(c18{}) }
 
 func (c18) ID() string { return "C18" }
 func (c18) Rule() string {
-	return "plans: 1-2 signing tasks (Sign, SignBlob) sharing one scripted byzantine signing plugin, six key specs, JWS / COSE, raw-signature or envelope capability; per request an answer fault: envelope over a different digest / size / media type, dropped or altered annotation, added annotation (legal), extra member at payload or descriptor level, alternative spellings of the payload key (TargetArtifact, duplicates in both orders, null target), other envelope format, mismatching type string, corrupted signature, wrong payload type, replay of an earlier answer (stale, or cross-delivered between the two tasks by the scheduler), key-id mismatch in describe-key / generate-signature, undecodable or mismatching key spec, chain of another key, empty or garbage chain, corrupted raw signature. non-trivial: at least one faulty answer; distinct: hash of (requests, faults, verdicts, interleaving)"
+	return "plans: 1-2 signing tasks (Sign, SignBlob) sharing one scripted byzantine signing plugin, six key specs, JWS / COSE, raw-signature or envelope capability; per request an answer fault: envelope over a different digest / size / media type, dropped or altered annotation, added annotation (legal), extra member at payload or descriptor level, alternative spellings of the payload key (TargetArtifact, duplicates in both orders, null target), other envelope format, mismatching type string, corrupted signature, wrong payload type, replay of an earlier answer (stale, or cross-delivered between the two tasks by the scheduler), key-id mismatch in describe-key / generate-signature, undecodable or mismatching key spec, chain of another key, empty or garbage chain, corrupted raw signature. In half of the runs one PluginSigner per signing host serves all its calls; plugin answers may omit members (digest, size, media type, annotations, the whole target, everything). non-trivial: at least one faulty answer; distinct: hash of (requests, faults, verdicts, interleaving)"
 }
 func (c18) Components() map[string]string {
 	return map[string]string{
